@@ -10,7 +10,7 @@ From CG Require Import Base.Prelude Model.Ast Model.Parser Model.Check Model.Dfa
 From CG Require Import Spec.Lang Spec.ScriptRead Spec.Meaning Spec.Domain Spec.Invocations Spec.KnownC01.
 From CG Require Import Proofs.TablesSound Proofs.BashCodec Proofs.BashScript Proofs.TreeFacts Proofs.EmbedEndToEnd.
 From CG Require Import Proofs.CheckTree Proofs.SubChecks Proofs.BashMeaningSub Proofs.BashMeaningMix
-  Proofs.StripFacts Proofs.GlobFacts Proofs.CompilerTotal.
+  Proofs.StripFacts Proofs.GlobFacts Proofs.CompilerTotal Proofs.SubBridge Proofs.CapstoneShape.
 From CG Require Props.C05b Props.C04b Props.C01.
 Open Scope N_scope.
 Open Scope list_scope.
@@ -87,8 +87,8 @@ Theorem compile_bash_meaning o builtins text s :
         /\ (forall w, accepts_items c w <-> denotes (v_expr v) w))
     (* what the functions of the script compute on those tables *)
     /\ (forall (benv : BashSem.env) (en : Meaning.env) ws p,
-        mix_tree (v_expr v) = true -> lits_nodup o = true -> subs_deterministic c ->
-        C01_domain (v_expr v) = true ->
+        lits_nodup o = true -> subs_deterministic c ->
+        C01_domain (v_expr v) = true -> C01_env_ok (v_expr v) en = true ->
         BashSem.e_ignore_case benv = false -> BashSem.e_wordbreaks benv = Meaning.e_wordbreaks en ->
         breaks_ok (BashSem.e_wordbreaks benv) = true -> plain p = true -> printable_str p = true ->
         (forall cm cid, Tables.index_of cm (a_commands a) = Some cid ->
@@ -98,7 +98,7 @@ Theorem compile_bash_meaning o builtins text s :
         | None => exists log, run_from Repaired (d_start (c_main c)) a benv ws p = Ok (mkresult 1 [] log)
         | Some (req, al) =>
             exists reply log, run_from Repaired (d_start (c_main c)) a benv ws p = Ok (mkresult 0 reply log)
-                              /\ (forall x, In x reply <-> In x req) /\ incl req al
+                              /\ incl req reply /\ incl reply al
         end).
 Proof.
   intro H. destruct (compile_bash_inv o builtins text s H) as [g [v [c [nd [a [Hg [Hv [Hcv [Hc [Halts [Ho [Ha [Vg Hs]]]]]]]]]]]]].
@@ -109,8 +109,9 @@ Proof.
     split; [|split; assumption].
     exists sts. split; [exact S1|]. split; [exact S2|]. split; [exact S3|]. split; [exact S4|].
     intro Hw. exact (S5 Vg Hw).
-  - intros benv en ws p Hm Hnd Hdet Hdom Hic Hwb Hbr Hpl Hpr Hcm Hamb.
-    exact (Props.C01.C01_bash_meaning_mixed _ _ v c _ _ nd a benv en ws p Hm Halts Hcv Ha
-             (lits_nodup_main o Hnd) (orders_ok_main c _ _ Ho) (sub_orders_ok_of c o Ho Hnd) Hdet Hdom
+  - intros benv en ws p Hnd Hdet Hdom Henv Hic Hwb Hbr Hpl Hpr Hcm Hamb.
+    exact (Props.C01.C01_bash_meaning _ _ v c _ _ nd a benv en ws p
+             (parsed_sub_tree builtins text g Bash v Hg eq_refl Hv) Halts Hcv Ha
+             (lits_nodup_main o Hnd) (orders_ok_main c _ _ Ho) (sub_orders_ok_of c o Ho Hnd) Hdet Hdom Henv
              Hic Hwb Hbr Hpl Hpr Hcm Hamb).
 Qed.
